@@ -275,7 +275,18 @@ class Exec:
 
     # ------------------------------------------------------------------ environment
     def enabled(self):
-        return [w for w in self.workers if w.started and not w.done]
+        cap = self.cfg.get("pipe_capacity")
+        out = []
+        for w in self.workers:
+            if not (w.started and not w.done):
+                continue
+            if cap is not None and w.q is not None and len(w.q.items) >= cap:
+                f = self.faults.get(w.wid)
+                dying = f is not None and f["code"] < 0 and w.delivered == f["k"]
+                if w.delivered < len(w.msgs) and not dying:
+                    continue  # the pipe is full: the worker's feeder blocks until the parent reads
+            out.append(w)
+        return out
 
     def do_event(self, w):
         """perform the next event of worker w."""
@@ -481,6 +492,15 @@ class Exec:
                 if self.nops > HORIZON:
                     raise Hang("horizon")
                 en = self.enabled()
+                if p not in en:
+                    # the joined worker cannot finish (its results do not fit the pipe and nobody reads): only other
+                    # workers' events could help, and they never drain this pipe
+                    if not en:
+                        raise Hang("deadlock-join-with-full-pipe")
+                    others = [w for w in en if w is not p]
+                    self.transitions += 1
+                    self.do_event(others[0])
+                    continue
                 if len(en) == 1:
                     self.transitions += 1
                     self.do_event(en[0])
